@@ -16,7 +16,7 @@ META = {
             'oracles); 5 s alarm per call (hang = violation); run under 2-8 hash seeds. CNF grammars x generated words: leftmost and '
             'rightmost derivations validated step by step and compared exactly with the Lean model. The Lean models of the simulators are '
             'run under random schedulers and their traces validated by the same checker; non-trivial = accepted non-empty word whose '
-            'trace uses an epsilon move / derivation of >=3 steps; distinct by (object, word); also PDAs with epsilon push loops next to an epsilon branch, ambiguous stack symbols; a run not produced within 5 s and again 10 s for a word the acceptance test accepts at once is a violation',
+            'trace uses an epsilon move / derivation of >=3 steps; distinct by (object, word); also PDAs with epsilon push loops next to an epsilon branch, ambiguous stack symbols; a run not produced within 5 s and again 10 s for a word the acceptance test accepts at once is a violation; one NFA whose accepting run has more than a thousand consecutive epsilon steps',
     'assumptions': ['valid objects; CFGs in CNF with terminals/variables disjoint'],
     'trusted_base': ['Spec: Gamba/Spec/Automata.lean, PDA.lean, CFG.lean'],
 }
@@ -31,6 +31,8 @@ def cases(ctx):
     for i in range(500 * K):
         yield {'kind': 'nfa', 'X': gen.random_nfa(rng, 5, rng.choice([['a', 'b'], ['a'], ['a', 'b', 'c']])), 'n': 3,
                'scheds': [[rng.randint(0, 5) for _ in range(6)] for _ in range(2)]}
+    # an accepting run with more than a thousand consecutive epsilon steps (deeper than any recursion limit)
+    yield {'kind': 'nfa', 'X': gen.late_long_chain_nfa(1300 if not thorough else 2100), 'n': 2, 'words': ['ab', 'a', 'b'], 'scheds': [[0, 1, 2]]}
     for i in range(200 * K):
         X = gen.push_loop_pda(rng) if i % 10 == 3 else gen.ambiguous_stack_pda(rng) if i % 10 == 7 else gen.random_pda(rng)
         yield {'kind': 'pda', 'X': X, 'n': 3, 'scheds': [[rng.randint(0, 5) for _ in range(6)]]}
